@@ -26,7 +26,7 @@ from vlib.common import ToolError, build_wild, log, save_replay, scratch, sh, tr
 
 PROP = "C25"
 META = {
-    "ready": False,
+    "ready": True,
     "level": "model_checking",
     "technique": "TLA+ rule Read(cmd) and DepOk, model-checked against a transcription of wild's loaded_files algorithm and a repaired variant over all small commands; every enumerated command replayed into the real wild with --dependency-file; Read pinned against GNU ld's dependency file and strace",
     "level_text": "TLC enumerates all link commands of up to 4 items (thorough; 2 plus a sample of 3 quick) over 13 input/option kinds with duplicates, aliases and script nesting depth 2, computes Read(cmd) and checks that the repaired loaded_files algorithm satisfies DepOk on every command (and that the pinned one only omits). Every enumerated command that fits the time budget is linked for real and the parsed dependency file is compared (target, set, multiplicity) with Read(cmd); GNU ld's dependency file and strace's openat record of the same link pin Read(cmd) independently.",
@@ -198,7 +198,6 @@ def one_case(i, rec, w, real, wild, with_strace, with_ld):
         if not main:
             return res
     listed, unknown = resolve_ids(main[0][1], w, real)
-    listed = [x for x in listed if x != "S"]
     res["listed"] = listed
     for u in unknown:
         res["problems"].append((f"extra:{u}", f"lists {u}, which is not a file of the link"))
